@@ -379,7 +379,12 @@ def check_main(args):
     if custom:
         return custom(args, seed)
     runs = tier_runs(check, tier, args.runs)
-    outs, errors = run_lanes(check, tier, seed, runs)
+    pre = getattr(check, "preflight", None)
+    msg = pre() if pre else None
+    if msg:
+        outs, errors = {}, [("-", "preflight", msg)]
+    else:
+        outs, errors = run_lanes(check, tier, seed, runs)
     m = merge(outs)
     wall = time.time() - t0
     rc = 0
